@@ -39,8 +39,10 @@ const (
 )
 
 var (
-	errUnknownTimerType = errors.New("unknown metric timer type")
-	ms                  = float64(time.Millisecond) / float64(time.Second)
+	errUnknownTimerType           = errors.New("unknown metric timer type")
+	errTimerRegisteredAsHistogram = errors.New("metric already registered as a histogram, cannot be used as a summary timer")
+	errTimerRegisteredAsSummary   = errors.New("metric already registered as a summary timer, cannot be used as a histogram")
+	ms                            = float64(time.Millisecond) / float64(time.Second)
 )
 
 // DefaultHistogramBuckets is the default histogram buckets used when
@@ -470,6 +472,9 @@ func (r *reporter) summaryVec(
 	defer r.Unlock()
 
 	if s, ok := r.timers[id]; ok {
+		if s.summary == nil {
+			return nil, errTimerRegisteredAsHistogram
+		}
 		return s.summary, nil
 	}
 
@@ -502,6 +507,9 @@ func (r *reporter) histogramVec(
 	defer r.Unlock()
 
 	if h, ok := r.timers[id]; ok {
+		if h.histogram == nil {
+			return nil, errTimerRegisteredAsSummary
+		}
 		return h.histogram, nil
 	}
 
